@@ -327,6 +327,13 @@ Reap(s) ==
   /\ alive' = [alive EXCEPT ![s] = FALSE] /\ idle' = [idle EXCEPT ![s] = FALSE]
   /\ UNCHANGED <<cvars, bTx, bCopy, bData, bad, dirty, tvars, cmap, viol>>
 
+\* The server restarts while nobody holds a connection: every connection is gone, new ones are refused for a while (startup
+\* answered with a FATAL error), then the server is back.  Afterwards the pool opens connections again up to pool_size.
+ServerRestart ==
+  /\ \A c \in Clients : held[c] = NONE /\ pc[c] \in {"off", "idle", "gone"}
+  /\ alive' = [s \in Conns |-> FALSE] /\ idle' = [s \in Conns |-> FALSE]
+  /\ UNCHANGED <<cvars, bTx, bCopy, bData, bad, dirty, tvars, cmap, viol>>
+
 \* A CancelRequest carrying c's key: looked up under the map lock; the request goes to the
 \* mapped connection.  Monitor: it must be the connection c holds right now.
 Cancel(c) ==
@@ -345,7 +352,7 @@ ClientNext ==
      \/ Vanish(c) \/ ForwardVanished(c)
      \/ (\E k \in Kinds : SendFirstGone(c, k) \/ NextMsgGone(c, k))
 
-Next == ClientNext \/ (\E s \in Conns : Reap(s))
+Next == ClientNext \/ (\E s \in Conns : Reap(s)) \/ ServerRestart
 
 Spec == Init /\ [][Next]_vars
 
